@@ -96,6 +96,9 @@ def doc_default_names(repo, ini_sections):
                     if sec.startswith(part + ".") and norm(sec[len(part) + 1:]) == want:
                         name = sec
             out[(part, fam)] = name
+    m = re.search(r"### Accelerator Configuration\n(.*?)\n### ", txt, re.S)
+    mm = re.search(r"\*\*Default: ([\w-]+)\*\*", m.group(1)) if m else None
+    out["accelerator"] = mm.group(1) if mm else None
     return out
 
 
@@ -199,6 +202,8 @@ def docSysU65 : Option String := {opt(docs[('System_Config', 'Ethos-U65')])}
 def docSysU55 : Option String := {opt(docs[('System_Config', 'Ethos-U55')])}
 def docMemU65 : Option String := {opt(docs[('Memory_Mode', 'Ethos-U65')])}
 def docMemU55 : Option String := {opt(docs[('Memory_Mode', 'Ethos-U55')])}
+/-- OPTIONS.md "Accelerator Configuration": **Default: …** -/
+def docAcceleratorDefault : Option String := {opt(docs['accelerator'])}
 
 /-- A resolved configuration as raw numbers (MemArea / MemPort by value), see `Model/ConfigTypes.lean` -/
 structure RawDy where
